@@ -116,6 +116,27 @@ def do_one(mid, spec, props, tier, seed):
     return out
 
 
+def record(results, tier, seed):
+    """merge the outcome of this run into sensitivity/results.json"""
+    path = os.path.join(VERIF, 'sensitivity', 'results.json')
+    try:
+        with open(path) as f:
+            allr = json.load(f)
+    except (OSError, ValueError):
+        allr = {}
+    for r in results:
+        if r['prop'] == '-':
+            continue
+        allr.setdefault(r['mutant'], {})[r['prop']] = {
+            'status': 'caught' if r['rc'] == 1 else (
+                'missed' if r['rc'] == 0 else 'error'),
+            'signatures': [s.replace('signature: ', '') for s in r['sigs']],
+            'tier': tier, 'seed': seed, 'wall_s': r['wall']}
+    with open(path + '.tmp', 'w') as f:
+        json.dump(allr, f, indent=1, sort_keys=True)
+    os.replace(path + '.tmp', path)
+
+
 def main():
     ap = argparse.ArgumentParser()
     ap.add_argument('cmd', choices=['list', 'run', 'suite'])
@@ -179,6 +200,7 @@ def main():
                     r['mutant'], r['prop'], status, r['wall'],
                     '; '.join(r['sigs'])[:150], r['stderr_tail'][-300:]),
                     flush=True)
+    record(results, args.tier, args.seed)
     missed = [r for r in results if r['rc'] != 1]
     print('%d runs, %d caught, %d not caught' % (
         len(results), len(results) - len(missed), len(missed)))
